@@ -24,7 +24,7 @@ package impl
 //@ func (*impl.manager).OnRequestDisconnected {C03,C19}
 //@   ensures [event] seq(Channels.Disconnected) && called(Channels.Disconnected, _, chid, err)
 
-//@ func (*impl.manager).OnChannelCompleted {C01,C03}
+//@ func (*impl.manager).OnChannelCompleted {C01,C03,C09}
 //@   acquires {C20} tracing.SpansIndex.spansLk
 //@   ensures [unknown-channel] ret(GetByID, 1) != nil ==> untouched && result == ret(GetByID, 1)
 //@   ensures [error] completeErr != nil ==> never(SendMessage) && never(Channels.Complete) &&
@@ -77,7 +77,7 @@ package impl
 // ---------------------------------------------------------------------------------------------
 // utils.go
 
-//@ func (*impl.manager).resume {C11}
+//@ func (*impl.manager).resume {C11,C03}
 //@   ensures [role] (chid.Initiator == m.peerID) ? seq(Channels.ResumeInitiator) && called(Channels.ResumeInitiator, _, chid)
 //@                                              : seq(Channels.ResumeResponder) && called(Channels.ResumeResponder, _, chid)
 //@ func (*impl.manager).pause {C11}
@@ -108,7 +108,7 @@ package impl
 //@   ensures [mapping] result0 == (resultErr != nil ? resultErr :
 //@       (!result.Accepted ? datatransfer.ErrRejected : (stayPaused ? datatransfer.ErrPause : nil)))
 
-//@ func (*impl.manager).acceptRequest {C04,C18,C05}
+//@ func (*impl.manager).acceptRequest {C04,C18,C05,C11,C08,C19}
 //@   acquires {C20} channels.progressCache.lk, graphsync.Transport.dtChannelsLk, graphsync.dtChannel.optionsLk, registry.Registry.registryLk, transportoptions.TransportOptions.optionsLk
 //@   requires incoming != nil
 //@   after Registry.Processor [registry-typed] $0 == m.validatedTypes && $r1 ==> implements($r0, datatransfer.RequestValidator)
@@ -119,7 +119,7 @@ package impl
 //@   ensures [validated-args] all(RequestValidator.Validate*, $1 == chid && $2 == chid.Initiator && $4 == incoming.BaseCid())
 //@   ensures [unregistered] calls(Registry.Processor) >= 1 && !ret(Registry.Processor, 1) ==> err != nil && !result0.Accepted && untouched
 //@   ensures [malformed] calls(Registry.Processor) == 0 ==> err != nil && !result0.Accepted && untouched
-//@   ensures [no-selector-refused] {C04} incoming.Selector().1 != nil ==> err != nil && !result0.Accepted && untouched -- a request that does not carry a selector is refused before anything else happens
+//@   ensures [no-selector-refused] {C04,C11,C08,C19} incoming.Selector().1 != nil ==> err != nil && !result0.Accepted && untouched -- a request that does not carry a selector is refused before anything else happens
 //@   ensures [not-accepted] calls(RequestValidator.Validate*) == 1 && (ret(RequestValidator.Validate*, 1) != nil || !ret(RequestValidator.Validate*, 0).Accepted) ==>
 //@       last(RequestValidator.Validate*) && err == ret(RequestValidator.Validate*, 1) && result0 == ret(RequestValidator.Validate*, 0)
 //@   ensures [result-is-validators] calls(RequestValidator.Validate*) == 1 && err == nil ==> result0 == ret(RequestValidator.Validate*, 0)
@@ -130,18 +130,18 @@ package impl
 //@       called(Channels.Open, _, chid) && called(Channels.Accept, _, chid) && before(Channels.Accept, manager.recordAcceptedValidationEvents)
 //@   ensures [records-validation] err == nil && result0.Accepted ==> calls(manager.recordAcceptedValidationEvents) == 1 &&
 //@       all(manager.recordAcceptedValidationEvents, $2 == ret(RequestValidator.Validate*, 0))
-//@   ensures [stops-at-first-failure] {C04} (calls(Channels.Open) == 1 && ret(Channels.Open, 0) != nil ==> err == ret(Channels.Open, 0) && last(Channels.Open)) &&
+//@   ensures [stops-at-first-failure] {C04,C11,C08,C19} (calls(Channels.Open) == 1 && ret(Channels.Open, 0) != nil ==> err == ret(Channels.Open, 0) && last(Channels.Open)) &&
 //@       (calls(Channels.Accept) == 1 && ret(Channels.Accept, 0) != nil ==> err == ret(Channels.Accept, 0) && last(Channels.Accept)) &&
 //@       (calls(manager.recordAcceptedValidationEvents) == 1 && ret(manager.recordAcceptedValidationEvents, 0) != nil ==>
 //@           err == ret(manager.recordAcceptedValidationEvents, 0) && never(TransportOptions.ApplyOptions) && never(DataTransferNetwork.Protect)) &&
 //@       (calls(TransportOptions.ApplyOptions) == 1 && ret(TransportOptions.ApplyOptions, 0) != nil ==> err == ret(TransportOptions.ApplyOptions, 0) && never(DataTransferNetwork.Protect))
-//@   ensures [configured-and-protected] {C16,C09} err == nil && result0.Accepted ==> calls(TransportOptions.ApplyOptions) == 1 && all(TransportOptions.ApplyOptions, $1 == chid && $2 == m.transport) && all(dyn.TransportConfigurer, len($r0) > 0 ==> called(TransportOptions.SetOptions, _, chid, $r0)) &&
+//@   ensures [configured-and-protected] {C16,C09,C11,C08,C19} err == nil && result0.Accepted ==> calls(TransportOptions.ApplyOptions) == 1 && all(TransportOptions.ApplyOptions, $1 == chid && $2 == m.transport) && all(dyn.TransportConfigurer, len($r0) > 0 ==> called(TransportOptions.SetOptions, _, chid, $r0)) &&
 //@       last(DataTransferNetwork.Protect, $1 == chid.Initiator && $2 == chid.String()) && calls(DataTransferNetwork.Protect) == 1
 
-//@ func (*impl.manager).receiveNewRequest {C04}
+//@ func (*impl.manager).receiveNewRequest {C04,C11,C08,C19,C05}
 //@   acquires {C20} channels.progressCache.lk, graphsync.Transport.dtChannelsLk, graphsync.dtChannel.optionsLk, registry.Registry.registryLk, transportoptions.TransportOptions.optionsLk
 //@   requires incoming != nil
-//@   ensures [replies-unless-unencodable] {C04} result0 != nil || err != nil -- a reply message is produced for every request; only a result that cannot be encoded yields none, and then an error
+//@   ensures [replies-unless-unencodable] {C04,C11,C08,C19,C05} result0 != nil || err != nil -- a reply message is produced for every request; only a result that cannot be encoded yields none, and then an error
 //@   ensures [validated] seq(manager.acceptRequest) && called(manager.acceptRequest, _, chid, incoming)
 //@   ensures [reply] result0 != nil ==> result0.IsNew() && !result0.IsRequest() && result0.TransferID() == incoming.TransferID() &&
 //@       result0.Accepted() == (ret(manager.acceptRequest, 1) == nil && ret(manager.acceptRequest, 0).Accepted) &&
@@ -152,13 +152,13 @@ package impl
 //@   ensures [error] result0 != nil ==> err == (ret(manager.acceptRequest, 1) != nil ? ret(manager.acceptRequest, 1) :
 //@       (!ret(manager.acceptRequest, 0).Accepted ? datatransfer.ErrRejected : (ret(manager.acceptRequest, 0).ForcePause ? datatransfer.ErrPause : nil)))
 
-//@ func (*impl.manager).recordRejectedValidationEvents {C04,C19,C08}
+//@ func (*impl.manager).recordRejectedValidationEvents {C04,C19,C08,C11,C03}
 //@   ensures [result-then-error] result.VoucherResult != nil ==> first(Channels.NewVoucherResult, $1 == chid && $2 == *result.VoucherResult)
 //@   ensures [error-event] (result.VoucherResult == nil || calls(Channels.NewVoucherResult) == 1 && ret(Channels.NewVoucherResult, 0) == nil) ==>
 //@       last(Channels.Error, $1 == chid && $2 == datatransfer.ErrRejected) && calls(Channels.Error) == 1
 //@   ensures [nothing-else] only(Channels.NewVoucherResult, Channels.Error)
 
-//@ func (*impl.manager).recordAcceptedValidationEvents {C08,C04,C19,C11}
+//@ func (*impl.manager).recordAcceptedValidationEvents {C08,C04,C19,C11,C03,C01}
 //@   acquires {C20} channels.progressCache.lk
 //@   requires chst != nil
 //@   ensures [only] only(Channels.NewVoucherResult, Channels.SetDataLimit, Channels.SetRequiresFinalization, Channels.PauseResponder, Channels.ResumeResponder)
@@ -175,7 +175,7 @@ package impl
 //@   ensures [pause-rule] err == nil ==> (calls(Channels.PauseResponder) == 1) == (result.LeaveRequestPaused(chst) && !chst.ResponderPaused()) &&
 //@       (calls(Channels.ResumeResponder) == 1) == (!result.LeaveRequestPaused(chst) && chst.ResponderPaused())
 //@   ensures [pause-last] calls(Channels.PauseResponder) + calls(Channels.ResumeResponder) == 1 ==> (last(Channels.PauseResponder) || last(Channels.ResumeResponder))
-//@   ensures [failure-reported] {C04,C08} (calls(Channels.NewVoucherResult) == 1 && ret(Channels.NewVoucherResult, 0) != nil ==> err == ret(Channels.NewVoucherResult, 0) && last(Channels.NewVoucherResult)) &&
+//@   ensures [failure-reported] {C04,C08,C03,C01} (calls(Channels.NewVoucherResult) == 1 && ret(Channels.NewVoucherResult, 0) != nil ==> err == ret(Channels.NewVoucherResult, 0) && last(Channels.NewVoucherResult)) &&
 //@       (calls(Channels.SetDataLimit) == 1 && ret(Channels.SetDataLimit, 0) != nil ==> err == ret(Channels.SetDataLimit, 0) && last(Channels.SetDataLimit)) &&
 //@       (calls(Channels.SetRequiresFinalization) == 1 && ret(Channels.SetRequiresFinalization, 0) != nil ==> err == ret(Channels.SetRequiresFinalization, 0) && last(Channels.SetRequiresFinalization)) &&
 //@       (calls(Channels.PauseResponder) == 1 && ret(Channels.PauseResponder, 0) != nil ==> err == ret(Channels.PauseResponder, 0)) &&
@@ -204,7 +204,7 @@ package impl
 //@       ret(GetByID, 0).SelfPaused() ==> err == datatransfer.ErrPause
 //@   ensures [resumed] !request.IsPaused() && err == nil ==> calls(GetByID) == 1 && !ret(GetByID, 0).SelfPaused()
 
-//@ func (*impl.manager).restartRequest {C04,C05,C10,C02}
+//@ func (*impl.manager).restartRequest {C04,C05,C10,C02,C11,C08,C19}
 //@   acquires {C20} channels.progressCache.lk, graphsync.Transport.dtChannelsLk, graphsync.dtChannel.optionsLk, registry.Registry.registryLk, transportoptions.TransportOptions.optionsLk
 //@   requires incoming != nil
 //@   after Registry.Processor [configurer-typed] $0 == m.transportConfigurers && $r1 ==> dyntype_is($r0, datatransfer.TransportConfigurer) && $r0.(datatransfer.TransportConfigurer) != nil
@@ -224,20 +224,20 @@ package impl
 //@   ensures [stay-paused] calls(manager.validateRestart) == 1 && calls(GetByID) >= 1 ==> result0 == ret(manager.validateRestart, 0).LeaveRequestPaused(ret(GetByID, 0))
 //@   ensures [restart-first-effect] calls(Channels.Restart) == 1 ==> before(Channels.Restart, manager.recordAcceptedValidationEvents) &&
 //@       before(Channels.Restart, TransportOptions.ApplyOptions) && before(Channels.Restart, DataTransferNetwork.Protect)
-//@   ensures [refusals-do-not-stay-paused] {C11} (m.peerID == chid.Initiator ==> !result0) &&
+//@   ensures [refusals-do-not-stay-paused] {C11,C08,C19} (m.peerID == chid.Initiator ==> !result0) &&
 //@       (calls(manager.validateRestartRequest) == 1 && ret(manager.validateRestartRequest, 0) != nil ==> !result0) &&
 //@       (calls(GetByID) >= 1 && ret(GetByID, 1) != nil ==> !result0 && err == ret(GetByID, 1) && !result1.Accepted)
-//@   ensures [stops-at-first-failure] {C04} (calls(Channels.Restart) == 1 && ret(Channels.Restart, 0) != nil ==> err != nil && last(Channels.Restart)) &&
+//@   ensures [stops-at-first-failure] {C04,C11,C08,C19} (calls(Channels.Restart) == 1 && ret(Channels.Restart, 0) != nil ==> err != nil && last(Channels.Restart)) &&
 //@       (calls(manager.recordAcceptedValidationEvents) == 1 && ret(manager.recordAcceptedValidationEvents, 0) != nil ==>
 //@           err == ret(manager.recordAcceptedValidationEvents, 0) && never(TransportOptions.ApplyOptions) && never(DataTransferNetwork.Protect)) &&
 //@       (calls(TransportOptions.ApplyOptions) == 1 && ret(TransportOptions.ApplyOptions, 0) != nil ==> err == ret(TransportOptions.ApplyOptions, 0) && never(DataTransferNetwork.Protect))
-//@   ensures [configured-and-protected] {C16,C09,C10} err == nil && result1.Accepted ==> calls(Channels.Restart) == 1 && calls(TransportOptions.ApplyOptions) == 1 && all(TransportOptions.ApplyOptions, $1 == chid && $2 == m.transport) && all(dyn.TransportConfigurer, len($r0) > 0 ==> called(TransportOptions.SetOptions, _, chid, $r0)) &&
+//@   ensures [configured-and-protected] {C16,C09,C10,C11,C08,C19} err == nil && result1.Accepted ==> calls(Channels.Restart) == 1 && calls(TransportOptions.ApplyOptions) == 1 && all(TransportOptions.ApplyOptions, $1 == chid && $2 == m.transport) && all(dyn.TransportConfigurer, len($r0) > 0 ==> called(TransportOptions.SetOptions, _, chid, $r0)) &&
 //@       last(DataTransferNetwork.Protect, $1 == chid.Initiator && $2 == chid.String()) && calls(DataTransferNetwork.Protect) == 1
 
-//@ func (*impl.manager).receiveRestartRequest {C04,C10}
+//@ func (*impl.manager).receiveRestartRequest {C04,C10,C11,C08,C19,C05}
 //@   acquires {C20} channels.progressCache.lk, graphsync.Transport.dtChannelsLk, graphsync.dtChannel.optionsLk, registry.Registry.registryLk, transportoptions.TransportOptions.optionsLk
 //@   requires incoming != nil
-//@   ensures [replies-unless-unencodable] {C04} result0 != nil || err != nil -- a reply message is produced for every request; only a result that cannot be encoded yields none, and then an error
+//@   ensures [replies-unless-unencodable] {C04,C11,C08,C19,C05} result0 != nil || err != nil -- a reply message is produced for every request; only a result that cannot be encoded yields none, and then an error
 //@   ensures [validated] seq(manager.restartRequest) && called(manager.restartRequest, _, chid, incoming)
 //@   ensures [reply] result0 != nil ==> result0.IsRestart() && !result0.IsRequest() && result0.TransferID() == incoming.TransferID() &&
 //@       result0.Accepted() == (ret(manager.restartRequest, 2) == nil && ret(manager.restartRequest, 1).Accepted) &&
@@ -321,25 +321,27 @@ package impl
 //@       (ret(Monitor.AddPullChannel, 0) != nil ==> called(monitoredChannel.Shutdown, ret(Monitor.AddPullChannel, 0)))
 //@   ensures [opened-is-success] {C10} calls(Transport.OpenChannel) == 1 && ret(Transport.OpenChannel, 0) == nil ==> err == nil && never(monitoredChannel.Shutdown)
 
-//@ func (*impl.manager).restartManagerPeerReceivePush {C10,C04}
+//@ func (*impl.manager).restartManagerPeerReceivePush {C10,C04,C05}
 //@   acquires {C20} registry.Registry.registryLk
 //@   requires channel != nil
 //@   ensures [revalidates-first] first(manager.validateRestart, $1 == channel)
 //@   ensures [rejected] ret(manager.validateRestart, 1) != nil || !ret(manager.validateRestart, 0).Accepted ==> seq(manager.validateRestart) && result != nil
 //@   ensures [asks-initiator] all(DataTransferNetwork.SendMessage, $2 == channel.OtherPeer() && $3.IsRequest() &&
 //@       $3.(datatransfer.Request).IsRestartExistingChannelRequest() && $3.(datatransfer.Request).RestartChannelId().0 == channel.ChannelID())
-//@   ensures [only] only(manager.validateRestart, DataTransferNetwork.SendMessage) && calls(DataTransferNetwork.SendMessage) <= 1
-//@   ensures [asked-or-error] {C10} (calls(DataTransferNetwork.SendMessage) == 1 ==> ((result == nil) == (ret(DataTransferNetwork.SendMessage, 0) == nil))) &&
+//@   ensures [only] {C10,C04,C19,C08,C11,C05} only(manager.validateRestart, DataTransferNetwork.SendMessage) && calls(DataTransferNetwork.SendMessage) <= 1
+//@       -- asking the initiator to restart records nothing on the channel (no voucher result, limit or pause change): the request that follows does that, once
+//@   ensures [asked-or-error] {C10,C05} (calls(DataTransferNetwork.SendMessage) == 1 ==> ((result == nil) == (ret(DataTransferNetwork.SendMessage, 0) == nil))) &&
 //@       (ret(manager.validateRestart, 1) == nil && ret(manager.validateRestart, 0).Accepted ==> calls(DataTransferNetwork.SendMessage) == 1 || result != nil)
-//@ func (*impl.manager).restartManagerPeerReceivePull {C10,C04}
+//@ func (*impl.manager).restartManagerPeerReceivePull {C10,C04,C05}
 //@   acquires {C20} registry.Registry.registryLk
 //@   requires channel != nil
 //@   ensures [revalidates-first] first(manager.validateRestart, $1 == channel)
 //@   ensures [rejected] ret(manager.validateRestart, 1) != nil || !ret(manager.validateRestart, 0).Accepted ==> seq(manager.validateRestart) && result != nil
 //@   ensures [asks-initiator] all(DataTransferNetwork.SendMessage, $2 == channel.OtherPeer() && $3.IsRequest() &&
 //@       $3.(datatransfer.Request).IsRestartExistingChannelRequest() && $3.(datatransfer.Request).RestartChannelId().0 == channel.ChannelID())
-//@   ensures [only] only(manager.validateRestart, DataTransferNetwork.SendMessage) && calls(DataTransferNetwork.SendMessage) <= 1
-//@   ensures [asked-or-error] {C10} (calls(DataTransferNetwork.SendMessage) == 1 ==> ((result == nil) == (ret(DataTransferNetwork.SendMessage, 0) == nil))) &&
+//@   ensures [only] {C10,C04,C19,C08,C11,C05} only(manager.validateRestart, DataTransferNetwork.SendMessage) && calls(DataTransferNetwork.SendMessage) <= 1
+//@       -- asking the initiator to restart records nothing on the channel (no voucher result, limit or pause change): the request that follows does that, once
+//@   ensures [asked-or-error] {C10,C05} (calls(DataTransferNetwork.SendMessage) == 1 ==> ((result == nil) == (ret(DataTransferNetwork.SendMessage, 0) == nil))) &&
 //@       (ret(manager.validateRestart, 1) == nil && ret(manager.validateRestart, 0).Accepted ==> calls(DataTransferNetwork.SendMessage) == 1 || result != nil)
 
 // ---------------------------------------------------------------------------------------------
@@ -372,7 +374,7 @@ package impl
 //@       never(Channels.NewVoucherResult) && result != nil && last(manager.OnRequestDisconnected, $1 == channelID)
 //@   ensures [recorded] result == nil ==> calls(Channels.NewVoucherResult) == 1 && calls(DataTransferNetwork.SendMessage) == 1
 
-//@ func (*impl.manager).updateValidationStatus {C05,C04,C08}
+//@ func (*impl.manager).updateValidationStatus {C05,C04,C08,C03,C11,C19,C01}
 //@   acquires {C20} channels.progressCache.lk, graphsync.Transport.dtChannelsLk, graphsync.dtChannel.lk
 //@   ensures [role] chid.Initiator == m.peerID ==> result0 != nil && untouched
 //@   ensures [flow] chid.Initiator != m.peerID ==> first(manager.processValidationUpdate, $2 == chid && $3 == result) &&
@@ -384,7 +386,7 @@ package impl
 //@   ensures [recorded] chid.Initiator != m.peerID && ret(manager.processValidationUpdate, 2) == nil ==>
 //@       seq(manager.processValidationUpdate, manager.handleTransportUpdate) && result0 == ret(manager.handleTransportUpdate, 0)
 
-//@ func (*impl.manager).processValidationUpdate {C04,C08}
+//@ func (*impl.manager).processValidationUpdate {C04,C08,C03,C11,C19,C01}
 //@   acquires {C20} channels.progressCache.lk
 //@   ensures [unknown-channel] ret(GetByID, 1) != nil ==> untouched && err != nil && result0 == nil && result1 == nil
 //@   ensures [records] ret(GetByID, 1) == nil ==> (result.Accepted ? first(manager.recordAcceptedValidationEvents, $1 == ret(GetByID, 0) && $2 == result)
@@ -393,9 +395,9 @@ package impl
 //@   ensures [reply] err == nil ==> result0 == ret(GetByID, 0) && result0 != nil && result1 != nil && !result1.IsRequest() && result1.TransferID() == ret(GetByID, 0).TransferID() &&
 //@       result1.Accepted() == result.Accepted && result1.IsPaused() == result.LeaveRequestPaused(ret(GetByID, 0)) &&
 //@       result1.IsComplete() == (ret(GetByID, 0).Status() == datatransfer.Finalizing)
-//@   ensures [only] only(GetByID, manager.recordAcceptedValidationEvents, manager.recordRejectedValidationEvents)
+//@   ensures [only] {C04,C08,C19,C11,C03,C01} only(GetByID, manager.recordAcceptedValidationEvents, manager.recordRejectedValidationEvents)
 
-//@ func (*impl.manager).handleTransportUpdate {C04,C08,C11}
+//@ func (*impl.manager).handleTransportUpdate {C04,C08,C11,C03,C19,C01}
 //@   acquires {C20} graphsync.Transport.dtChannelsLk, graphsync.dtChannel.lk
 //@   requires [snapshot] chst != nil
 //@   ensures [resume] resultErr == nil && result.Accepted && !result.LeaveRequestPaused(chst) && chst.ResponderPaused() && !chst.Status().InFinalization() ==>
@@ -425,6 +427,8 @@ package impl
 //@       $3.IsRequest() == ((*chid).Initiator == (**m).peerID)) && calls(DataTransferNetwork.SendMessage) == 1
 //@   ensures [send-failure] ret(DataTransferNetwork.SendMessage, 0) != nil ==> called(manager.OnRequestDisconnected, _, *chid)
 //@   ensures [only] only(DataTransferNetwork.SendMessage, manager.OnRequestDisconnected)
+//@   ensures [detached-send] all(DataTransferNetwork.SendMessage, detached($1))
+//@       -- the cancel message is sent on a context of its own (Background + timeout): it must still go out after the caller of Close has returned and cancelled its context
 
 //@ func (*impl.manager).CloseDataTransferChannelWithError {C09,C14}
 //@   refines dyn.Subscriber -- may be called from inside a subscriber callback (C20)
@@ -446,14 +450,14 @@ package impl
 //@   ensures [send-failure] calls(DataTransferNetwork.SendMessage) == 1 && ret(DataTransferNetwork.SendMessage, 0) != nil ==>
 //@       never(manager.pause) && last(manager.OnRequestDisconnected, $1 == chid) && result != nil
 
-//@ func (*impl.manager).ResumeDataTransferChannel {C11}
+//@ func (*impl.manager).ResumeDataTransferChannel {C11,C03}
 //@   refines dyn.Subscriber -- may be called from inside a subscriber callback (C20)
 //@   acquires {C20} graphsync.Transport.dtChannelsLk, graphsync.dtChannel.lk, tracing.SpansIndex.spansLk
 //@   ensures [order] seq(PauseableTransport.ResumeChannel, manager.resume) &&
 //@       all(PauseableTransport.ResumeChannel, $3 == chid && $2.IsUpdate() && !$2.IsPaused() && $2.TransferID() == chid.ID && $2.IsRequest() == (chid.Initiator == m.peerID)) &&
 //@       called(manager.resume, _, chid)
 
-//@ func (*impl.manager).RestartDataTransferChannel {C02,C06,C10,C09}
+//@ func (*impl.manager).RestartDataTransferChannel {C02,C06,C10,C09,C05,C04}
 //@   acquires {C20} channelmonitor.Monitor.lk, channelmonitor.monitoredChannel.shutdownLk, graphsync.Transport.dtChannelsLk, graphsync.dtChannel.lk, graphsync.dtChannel.optionsLk, registry.Registry.registryLk, tracing.SpansIndex.spansLk, transportoptions.TransportOptions.optionsLk
 //@   ensures [unknown-channel] ret(GetByID, 1) != nil ==> untouched && result != nil
 //@   ensures [terminated] ret(GetByID, 1) == nil && channels.IsChannelTerminated(ret(GetByID, 0).Status()) ==> result == nil && untouched
@@ -485,7 +489,7 @@ package impl
 // ---------------------------------------------------------------------------------------------
 // receiver.go
 
-//@ func (*impl.receiver).receiveRequest {C04,C05,C10,C11}
+//@ func (*impl.receiver).receiveRequest {C04,C05,C10,C11,C09,C19,C08}
 //@   acquires {C20} channels.progressCache.lk, graphsync.Transport.dtChannelsLk, graphsync.dtChannel.lk, graphsync.dtChannel.optionsLk, graphsync.requestIDToChannelIDMap.lk, registry.Registry.registryLk, tracing.SpansIndex.spansLk, transportoptions.TransportOptions.optionsLk
 //@   requires incoming != nil
 //@   ensures [derived-id] first(manager.OnRequestReceived, $1 == datatransfer.ChannelID{Initiator: initiator, Responder: r.manager.peerID, ID: incoming.TransferID()} && $2 == incoming) &&
@@ -508,13 +512,13 @@ package impl
 //@       (calls(DataTransferNetwork.SendMessage) == 1 ==> ret(DataTransferNetwork.SendMessage, 0) == nil) &&
 //@       (calls(GetByID) >= 1 ==> ret(GetByID, 1) == nil) ==> last(PauseableTransport.PauseChannel)
 //@   ensures [no-close-when-ok] ret(manager.OnRequestReceived, 1) == nil ==> never(Transport.CloseChannel) && never(PauseableTransport.PauseChannel)
-//@   ensures [accepted-push-opens-transport] {C04,C10} ret(manager.OnRequestReceived, 1) != datatransfer.ErrResume && ret(manager.OnRequestReceived, 0) != nil &&
+//@   ensures [accepted-push-opens-transport] {C04,C10,C09,C19,C08} ret(manager.OnRequestReceived, 1) != datatransfer.ErrResume && ret(manager.OnRequestReceived, 0) != nil &&
 //@       (calls(GetByID) >= 1 ==> ret(GetByID, 1) == nil) ==>
 //@       (((ret(manager.OnRequestReceived, 0).IsNew() || ret(manager.OnRequestReceived, 0).IsRestart()) && ret(manager.OnRequestReceived, 0).Accepted() && !incoming.IsPull()) ?
 //@           calls(Transport.OpenChannel) == 1 && never(DataTransferNetwork.SendMessage) : calls(DataTransferNetwork.SendMessage) == 1 && never(Transport.OpenChannel))
 //@       -- the reply to an accepted push (new or restart) travels with the graphsync request this side opens; every other reply is sent as a message
 
-//@ func (*impl.receiver).receiveResponse {C05,C11,C03,C01}
+//@ func (*impl.receiver).receiveResponse {C05,C11,C03,C01,C19,C04,C09}
 //@   acquires {C20} graphsync.Transport.dtChannelsLk, graphsync.dtChannel.lk, tracing.SpansIndex.spansLk
 //@   requires incoming != nil
 //@   ensures [derived-id] first(manager.OnResponseReceived, $1 == datatransfer.ChannelID{Initiator: r.manager.peerID, Responder: sender, ID: incoming.TransferID()} && $2 == incoming) &&
@@ -545,7 +549,7 @@ package impl
 // ---------------------------------------------------------------------------------------------
 // events.go (data flow) and opening
 
-//@ func (*impl.manager).OnDataReceived {C07,C08,C01}
+//@ func (*impl.manager).OnDataReceived {C07,C08,C01,C11}
 //@   acquires {C20} channels.blockIndexCache.lk, channels.progressCache.lk, tracing.SpansIndex.spansLk
 //@   requires [cid-links] link != nil && dyntype_is(link, cidlink.Link) -- configuration assumption: transports report cidlink.Link
 //@   ensures [forward] first(Channels.DataReceived, $1 == chid && $3 == size && $4 == index && $5 == unique) && calls(Channels.DataReceived) == 1
@@ -554,7 +558,7 @@ package impl
 //@   ensures [no-notice-otherwise] ret(Channels.DataReceived, 0) != datatransfer.ErrPause ==> seq(Channels.DataReceived) && result == ret(Channels.DataReceived, 0)
 //@   ensures [pause-result] ret(Channels.DataReceived, 0) == datatransfer.ErrPause && calls(DataTransferNetwork.SendMessage) == 1 && ret(DataTransferNetwork.SendMessage, 0) == nil ==> result == datatransfer.ErrPause
 
-//@ func (*impl.manager).OnDataQueued {C07,C08,C01}
+//@ func (*impl.manager).OnDataQueued {C07,C08,C01,C11}
 //@   acquires {C20} channels.blockIndexCache.lk, channels.progressCache.lk, tracing.SpansIndex.spansLk
 //@   requires [cid-links] link != nil && dyntype_is(link, cidlink.Link) -- configuration assumption: transports report cidlink.Link
 //@   ensures [forward] seq(Channels.DataQueued) && all(Channels.DataQueued, $1 == chid && $3 == size && $4 == index && $5 == unique)
@@ -575,7 +579,7 @@ package impl
 //@   ensures [fresh-id] seq(timeCounter.next) && (err == nil ==> result0 != nil && result0.TransferID() == ret(timeCounter.next, 0) && result0.IsNew() && result0.IsRequest() &&
 //@       result0.IsPull() == isPull && result0.BaseCid() == baseCid)
 
-//@ func (*impl.manager).OpenPushDataChannel {C18,C17,C10}
+//@ func (*impl.manager).OpenPushDataChannel {C18,C17,C10,C19,C05}
 //@   acquires {C20} channelmonitor.Monitor.lk, channelmonitor.monitoredChannel.shutdownLk, channelsubscriptions.ChannelSubscriptions.subscriptionsLk, graphsync.Transport.dtChannelsLk, graphsync.dtChannel.optionsLk, registry.Registry.registryLk, tracing.SpansIndex.spansLk, transportoptions.TransportOptions.optionsLk
 //@   after Registry.Processor [configurer-typed] $0 == m.transportConfigurers && $r1 ==> dyntype_is($r0, datatransfer.TransportConfigurer) && $r0.(datatransfer.TransportConfigurer) != nil
 //@   ensures [one-id] calls(manager.newRequest) == 1 && first(manager.newRequest) && all(manager.newRequest, !$3)
@@ -584,23 +588,23 @@ package impl
 //@   ensures [subscribe-before-open] notafter(ChannelSubscriptions.Subscribe, Channels.Open) && all(ChannelSubscriptions.Subscribe, $1 == ret(Channels.CreateNew, 0))
 //@   ensures [message] all(DataTransferNetwork.SendMessage, $2 == requestTo && $3 == ret(manager.newRequest, 0)) && never(Transport.OpenChannel)
 //@   ensures [send-failure] calls(DataTransferNetwork.SendMessage) == 1 && ret(DataTransferNetwork.SendMessage, 0) != nil ==> err != nil && called(Channels.Error, _, ret(Channels.CreateNew, 0), _)
-//@   ensures [subscribed-when-asked] {C17} calls(Channels.CreateNew) == 1 && ret(Channels.CreateNew, 1) == nil ==>
+//@   ensures [subscribed-when-asked] {C17,C19,C05} calls(Channels.CreateNew) == 1 && ret(Channels.CreateNew, 1) == nil ==>
 //@       calls(ChannelSubscriptions.Subscribe) == (ret(FromOptions, 0).EventsCb() != nil ? 1 : 0) && all(ChannelSubscriptions.Subscribe, $2 == ret(FromOptions, 0).EventsCb())
-//@   ensures [options-recorded] {C16} calls(Channels.CreateNew) == 1 && ret(Channels.CreateNew, 1) == nil && len(ret(FromOptions, 0).TransportOptions()) > 0 ==>
+//@   ensures [options-recorded] {C16,C19,C05} calls(Channels.CreateNew) == 1 && ret(Channels.CreateNew, 1) == nil && len(ret(FromOptions, 0).TransportOptions()) > 0 ==>
 //@       called(TransportOptions.SetOptions, _, ret(Channels.CreateNew, 0), ret(FromOptions, 0).TransportOptions())
-//@   ensures [open-refused-stops] {C02} calls(Channels.Open) == 1 && ret(Channels.Open, 0) != nil ==> err == ret(Channels.Open, 0) && last(Channels.Open)
-//@   ensures [configured-before-sending] {C16} all(TransportOptions.ApplyOptions, $1 == ret(Channels.CreateNew, 0) && $2 == m.transport) &&
+//@   ensures [open-refused-stops] {C02,C19,C05} calls(Channels.Open) == 1 && ret(Channels.Open, 0) != nil ==> err == ret(Channels.Open, 0) && last(Channels.Open)
+//@   ensures [configured-before-sending] {C16,C19,C05} all(TransportOptions.ApplyOptions, $1 == ret(Channels.CreateNew, 0) && $2 == m.transport) &&
 //@       (calls(DataTransferNetwork.SendMessage) == 1 ==> calls(TransportOptions.ApplyOptions) == 1 && ret(TransportOptions.ApplyOptions, 0) == nil &&
 //@           before(TransportOptions.ApplyOptions, DataTransferNetwork.SendMessage)) &&
 //@       all(dyn.TransportConfigurer, len($r0) > 0 ==> called(TransportOptions.SetOptions, _, ret(Channels.CreateNew, 0), $r0))
-//@   ensures [protected-and-monitored] {C09,C14} calls(DataTransferNetwork.SendMessage) == 1 ==>
+//@   ensures [protected-and-monitored] {C09,C14,C19,C05} calls(DataTransferNetwork.SendMessage) == 1 ==>
 //@       called(DataTransferNetwork.Protect, _, requestTo, ret(Channels.CreateNew, 0).String()) && before(DataTransferNetwork.Protect, DataTransferNetwork.SendMessage) &&
 //@       calls(Monitor.AddPushChannel) == 1 && all(Monitor.AddPushChannel, $1 == ret(Channels.CreateNew, 0)) && before(Monitor.AddPushChannel, DataTransferNetwork.SendMessage)
-//@   ensures [failed-send-stops-monitor] {C14} calls(DataTransferNetwork.SendMessage) == 1 && ret(DataTransferNetwork.SendMessage, 0) != nil && ret(Monitor.AddPushChannel, 0) != nil ==>
+//@   ensures [failed-send-stops-monitor] {C14,C19,C05} calls(DataTransferNetwork.SendMessage) == 1 && ret(DataTransferNetwork.SendMessage, 0) != nil && ret(Monitor.AddPushChannel, 0) != nil ==>
 //@       called(monitoredChannel.Shutdown, ret(Monitor.AddPushChannel, 0))
-//@   ensures [ok] {C18} err == nil ==> calls(DataTransferNetwork.SendMessage) == 1 && ret(DataTransferNetwork.SendMessage, 0) == nil && result0 == ret(Channels.CreateNew, 0)
+//@   ensures [ok] {C18,C19,C05} err == nil ==> calls(DataTransferNetwork.SendMessage) == 1 && ret(DataTransferNetwork.SendMessage, 0) == nil && result0 == ret(Channels.CreateNew, 0)
 
-//@ func (*impl.manager).OpenPullDataChannel {C18,C17,C10}
+//@ func (*impl.manager).OpenPullDataChannel {C18,C17,C10,C19,C05}
 //@   acquires {C20} channelmonitor.Monitor.lk, channelmonitor.monitoredChannel.shutdownLk, channelsubscriptions.ChannelSubscriptions.subscriptionsLk, graphsync.Transport.dtChannelsLk, graphsync.dtChannel.lk, graphsync.dtChannel.optionsLk, registry.Registry.registryLk, tracing.SpansIndex.spansLk, transportoptions.TransportOptions.optionsLk
 //@   after Registry.Processor [configurer-typed] $0 == m.transportConfigurers && $r1 ==> dyntype_is($r0, datatransfer.TransportConfigurer) && $r0.(datatransfer.TransportConfigurer) != nil
 //@   ensures [one-id] calls(manager.newRequest) == 1 && first(manager.newRequest) && all(manager.newRequest, $3)
@@ -609,19 +613,19 @@ package impl
 //@   ensures [subscribe-before-open] notafter(ChannelSubscriptions.Subscribe, Channels.Open) && all(ChannelSubscriptions.Subscribe, $1 == ret(Channels.CreateNew, 0))
 //@   ensures [request] all(Transport.OpenChannel, $2 == requestTo && $3 == ret(Channels.CreateNew, 0) && $6 == nil && $7 == ret(manager.newRequest, 0)) && never(DataTransferNetwork.SendMessage)
 //@   ensures [open-failure] calls(Transport.OpenChannel) == 1 && ret(Transport.OpenChannel, 0) != nil ==> err != nil && called(Channels.Error, _, ret(Channels.CreateNew, 0), _)
-//@   ensures [subscribed-when-asked] {C17} calls(Channels.CreateNew) == 1 && ret(Channels.CreateNew, 1) == nil ==>
+//@   ensures [subscribed-when-asked] {C17,C19,C05} calls(Channels.CreateNew) == 1 && ret(Channels.CreateNew, 1) == nil ==>
 //@       calls(ChannelSubscriptions.Subscribe) == (ret(FromOptions, 0).EventsCb() != nil ? 1 : 0) && all(ChannelSubscriptions.Subscribe, $2 == ret(FromOptions, 0).EventsCb())
-//@   ensures [options-recorded] {C16} calls(Channels.CreateNew) == 1 && ret(Channels.CreateNew, 1) == nil && len(ret(FromOptions, 0).TransportOptions()) > 0 ==>
+//@   ensures [options-recorded] {C16,C19,C05} calls(Channels.CreateNew) == 1 && ret(Channels.CreateNew, 1) == nil && len(ret(FromOptions, 0).TransportOptions()) > 0 ==>
 //@       called(TransportOptions.SetOptions, _, ret(Channels.CreateNew, 0), ret(FromOptions, 0).TransportOptions())
-//@   ensures [open-refused-stops] {C02} calls(Channels.Open) == 1 && ret(Channels.Open, 0) != nil ==> err == ret(Channels.Open, 0) && last(Channels.Open)
-//@   ensures [configured-before-requesting] {C16} all(TransportOptions.ApplyOptions, $1 == ret(Channels.CreateNew, 0) && $2 == m.transport) && all(dyn.TransportConfigurer, len($r0) > 0 ==> called(TransportOptions.SetOptions, _, ret(Channels.CreateNew, 0), $r0)) &&
+//@   ensures [open-refused-stops] {C02,C19,C05} calls(Channels.Open) == 1 && ret(Channels.Open, 0) != nil ==> err == ret(Channels.Open, 0) && last(Channels.Open)
+//@   ensures [configured-before-requesting] {C16,C19,C05} all(TransportOptions.ApplyOptions, $1 == ret(Channels.CreateNew, 0) && $2 == m.transport) && all(dyn.TransportConfigurer, len($r0) > 0 ==> called(TransportOptions.SetOptions, _, ret(Channels.CreateNew, 0), $r0)) &&
 //@       (calls(Transport.OpenChannel) == 1 ==> calls(TransportOptions.ApplyOptions) == 1 && ret(TransportOptions.ApplyOptions, 0) == nil && before(TransportOptions.ApplyOptions, Transport.OpenChannel))
-//@   ensures [protected-and-monitored] {C09,C14} calls(Transport.OpenChannel) == 1 ==>
+//@   ensures [protected-and-monitored] {C09,C14,C19,C05} calls(Transport.OpenChannel) == 1 ==>
 //@       called(DataTransferNetwork.Protect, _, requestTo, ret(Channels.CreateNew, 0).String()) && before(DataTransferNetwork.Protect, Transport.OpenChannel) &&
 //@       calls(Monitor.AddPullChannel) == 1 && all(Monitor.AddPullChannel, $1 == ret(Channels.CreateNew, 0)) && before(Monitor.AddPullChannel, Transport.OpenChannel)
-//@   ensures [failed-open-stops-monitor] {C14} calls(Transport.OpenChannel) == 1 && ret(Transport.OpenChannel, 0) != nil && ret(Monitor.AddPullChannel, 0) != nil ==>
+//@   ensures [failed-open-stops-monitor] {C14,C19,C05} calls(Transport.OpenChannel) == 1 && ret(Transport.OpenChannel, 0) != nil && ret(Monitor.AddPullChannel, 0) != nil ==>
 //@       called(monitoredChannel.Shutdown, ret(Monitor.AddPullChannel, 0))
-//@   ensures [ok] {C18} err == nil ==> calls(Transport.OpenChannel) == 1 && ret(Transport.OpenChannel, 0) == nil && result0 == ret(Channels.CreateNew, 0)
+//@   ensures [ok] {C18,C19,C05} err == nil ==> calls(Transport.OpenChannel) == 1 && ret(Transport.OpenChannel, 0) == nil && result0 == ret(Channels.CreateNew, 0)
 
 // ---------------------------------------------------------------------------------------------
 // start-up / readiness (C13)
@@ -682,7 +686,7 @@ package impl
 
 // public wrappers and stop (C04/C05/C08: the traced wrapper adds nothing to the checked implementation; C06/C19: queries go
 // through the flushing read; C20/C09: Stop shuts every component down, the transport last, and returns its result)
-//@ func (*impl.manager).UpdateValidationStatus {C04,C05,C08}
+//@ func (*impl.manager).UpdateValidationStatus {C04,C05,C08,C03,C11,C19,C01}
 //@   acquires {C20} channels.progressCache.lk, graphsync.Transport.dtChannelsLk, graphsync.dtChannel.lk, tracing.SpansIndex.spansLk
 //@   ensures [delegates] calls(manager.updateValidationStatus) == 1 && all(manager.updateValidationStatus, $2 == chid && $3 == result) &&
 //@       only(manager.updateValidationStatus) && result0 == ret(manager.updateValidationStatus, 0)
